@@ -13,18 +13,33 @@ NA = {
 PENDING = 'check not built yet in this session (see DESIGN.md section 8 build order); not claimed until it runs clean'
 
 LEVEL_TEXT = {
+    'C01': 'Translation validation of a corpus of core-language functions (branches, loops, labelled jumps, switch, multiple assignment, structs/arrays by value and through pointers, closures, methods, embedding, interfaces, type switches, generics, every range form, evaluation order, strings/slices): each function is executed under Go-specification semantics on its own unmodified go/ssa build and on the IR llgo\'s real pipeline emits (both before and after the default C-ABI transformation), with llgo\'s runtime entry points executed from their Go source; the solver proves equal results / panics / external-call traces for all argument values within the loop bound.',
+    'C03': 'Translation validation of 130 one-statement functions bracketed by trace calls (index / slice / slice-to-array / make forms x every index type, nil dereferences, array lengths at index-type maxima) plus bounded symbolic verification of the runtime checks NewSlice3, StringSlice, MakeSlice and Assert* for all 64-bit argument values.',
+    'C04': 'Translation validation of defer/panic/recover shapes (7 hand-written + 33 generated from a defer-shape grammar; 300 in the thorough tier): llgo\'s setjmp/longjmp + indirectbr defer machinery and its real runtime.Panic/Rethrow/Recover are executed symbolically against Go-specification defer semantics; deferred-call order and arguments (trace), named results and final panic state must agree for all inputs.',
+    'C10': 'Bounded model checking of the real z_chan.go under a symbolic scheduler: every interleaving at lock / condition-wait granularity (preemption-bounded, spurious wake-ups in the thorough tier) of 2-3 threads performing send / receive / close / select on channels of capacity 0-1, with symbolic element values; verdicts: delivered exactly once, ok flags, select commits a ready case, no deadlock while operations could complete.',
+    'C11': 'Bounded model checking under the same symbolic scheduler of llgo\'s semaphore (semaAcquire/semaRelease), notify list (the primitives under sync.Mutex/Cond/WaitGroup) and sync/atomic.Value: no lost wake-up, mutual exclusion, Wait returns only for a covered ticket, Swap/CompareAndSwap linearizable.',
+    'C16': 'Bounded symbolic differential of llgo\'s //go:embed directive parsing against the reference toolchain\'s own go/build.parseGoEmbed (copied verbatim from GOROOT at check time): all argument texts <= 3 bytes (4 in thorough) over a 12-byte stress alphabet, directive recognition, and the embed.FS sort key against embed.split.',
+    'C20': 'Bounded symbolic verification of extractTarGz / extractZip with the archive readers replaced by nondeterministic stubs: for every entry name <= 5 bytes (7 in thorough), type flag and link name, every file-system call stays inside the destination, escaping entries are rejected, benign entries are accepted.',
     'C02': 'Translation validation per one-operator function: the function is executed under Go-specification semantics (go/ssa) and on the LLVM IR that llgo\'s real pipeline (build.Do) emits for it; the solver proves equal result / equal panic status and absence of LLVM poison or UB for ALL operand values at full width (633 functions: every operator x 11 integer types, all 121 shift operand/count pairs, all integer conversion pairs, float32/64 arithmetic, comparisons and int<->float conversions, complex + - * == !=).',
     'C05': 'Bounded symbolic verification of the runtime slice/string kernels (go/ssa of runtime/internal/runtime executed symbolically): one step from an arbitrary valid pre-state per kernel, all element values and all header values within the stated element-count bounds; UTF-8 decode/encode differential against unicode/utf8 for all byte strings <= 5 bytes and all 2^32 runes. The solver verdict covers every input inside the bounds; nothing is sampled.',
     'C17': 'Bounded symbolic verification of the round-trip laws of shellparse.Parse and safesplit.SplitPkgConfigFlags over all argument lists within the stated rune/byte bounds (runes symbolic over Latin-1 plus wide runes, bytes fully symbolic).',
     'C18': 'Bounded symbolic verification of targets.Loader: the merge law for every field of Config (harness generated from the struct definition at check time) and inheritance resolution over all graphs on 2-3 nodes (chains, diamonds, cycles, self-loops, missing parents) against an independent reference, as a history of loads through one loader.',
 }
 NOTE = {
+    'C01': 'The quantifier all programs is met only through the corpus (about 55 functions); loop bound 8; LLVM 14 binding as IR producer; optimisation level O2, linking, process exit codes and gc/nogc configuration are outside. Known finding: ssa_order_fix.',
+    'C03': 'Signal delivery (SIGSEGV re-arming), channel and map panics and type-assertion panics are not part of this corpus; nil faults are modelled as accesses inside the unmapped 1 MiB nil region.',
+    'C04': 'Goexit, goroutine-exit defers and O2 are outside; the corpus is fixed (not seeded) because llgo\'s defer lowering has known defects (two recorded known findings).',
+    'C10': 'Preemption bound 2 (3 thorough), no spurious wake-ups in quick; >= 4 threads, timers and the compiler lowering of select/chan ops are outside. Known finding: close racing an unbuffered hand-off.',
+    'C11': 'The standard library sync types on top of these primitives, goroutine start (go statement lowering) and atomics lowering are outside this check; preemption bound 2 (3 thorough).',
+    'C16': 'File-system resolution of patterns (ResolvePatterns, CheckPath) is outside (needs a real directory tree and go list as oracle).',
+    'C20': 'Environment stubs: os.Open, gzip/tar/zip readers, os.MkdirAll/OpenFile/Create/Symlink (events), io.Copy; names contain no NUL; xz extraction (external tar), file contents and lock-file concurrency are outside.',
     'C02': 'Trusted: z3/cvc5, go/ssa, symx encodings of Go operator semantics and of LLVM LangRef 14 (poison rules), LLVM 14 binding as IR producer (instruction selection by llgo\'s cl/ssa is the same Go code as with LLVM 19). Wide division is abstracted as an uninterpreted function with concrete-evaluation refinement (sound for unsat). Float->int only on the representable range; complex division, NaN payloads and constant-folded expressions are outside.',
     'C05': 'Trusted: z3/cvc5, go/ssa, symx encodings of Go semantics and of memcpy/memmove/AllocZ/AllocU (DESIGN.md 2.4). Bounds: backing store <= 4 elements, element sizes {0,1,2,3,8,24}, appended <= 3 elements; longer histories are covered by induction on the slice invariant 0<=len<=cap. Compiler lowering of the operations is not part of this check.',
     'C17': 'Arguments are valid UTF-8; <= 3 runes per argument / <= 2 arguments; pkg-config bodies <= 3 bytes, domain assumptions stated in the harness (no leading dash, no trailing backslash, no edge white space - the latter is a recorded known finding). Build tags, -X parsing and $()/env expansion are outside this check.',
     'C18': 'Strings <= 2 bytes, lists <= 2 entries, graphs <= 3 nodes with <= 2 parents each; os.ReadFile is a stub that fails (missing file). The sweep over the shipped targets/*.json is concrete enumeration and outside this technique.',
 }
 TECH_TV = 'SMT-based translation validation: Go-spec semantics of go/ssa vs. symbolic execution of llgo-emitted LLVM IR (QF_BV/FP, z3/cvc5), counterexamples replayed via llc-14 + C driver against the Go toolchain'
+TECH_MC = 'SMT-based bounded model checking: the real Go code (go/ssa) under a symbolic scheduler whose choices are solver variables; counterexample schedules replayed natively on the verbatim code'
 TECH = 'SMT-based bounded symbolic execution of the real Go code (go/ssa -> QF_BV, z3/cvc5), counterexamples replayed natively'
 
 checks = []
@@ -39,7 +54,7 @@ for pid in sorted(spec.PROPS):
         'engine': 'symx',
         'level_claimed': {'category': P.get('level', 'other'), 'text': LEVEL_TEXT.get(pid, ''), 'design_ref': 'DESIGN.md section 3, ' + pid},
         'level_note': NOTE.get(pid, ''),
-        'technique': P.get('technique', TECH_TV if P.get('level') == 'translation_validation' else TECH),
+        'technique': P.get('technique', TECH_TV if P.get('level') == 'translation_validation' else (TECH_MC if P.get('level') == 'model_checking' else TECH)),
     })
 na = []
 for l in open(os.path.join(os.path.dirname(os.path.abspath(__file__)), 'properties.jsonl')):
